@@ -253,6 +253,18 @@ class SymArray:
                 vt = _term_of(val, self.sort)
                 self._elem = lambda i: vt
             return
+        if isinstance(key, SymArray) and key.sort == "int":
+            # scatter: self[key[k]] = val[k] for all k.  requires: the entries of key are pairwise distinct
+            H, I = scatter_functions(key)
+            if isinstance(val, SymArray):
+                _same_len(key.n, val.n, "index array and values in scatter assignment")
+                vf = val._elem
+                srt = self.sort
+                self._elem = lambda i: z3.If(H(i), _coerce_sort(vf(I(i)), srt), old(i))
+            else:
+                vt = _term_of(val, self.sort)
+                self._elem = lambda i: z3.If(H(i), vt, old(i))
+            return
         raise EngineLimit(f"SymArray assignment with key {type(key)}")
 
     def nonzero(self):
@@ -366,6 +378,25 @@ class SymArray:
     def __itruediv__(self, o):
         return self._ibin(o, "true_divide")
 
+    def max(self, *a, **k):
+        """max of an arange-like array (elem(i) = i + c, non-empty) is n - 1 + c; otherwise a fresh value m
+        with  (forall i. elem(i) <= m)  and a witness index."""
+        e = z3.simplify(self._elem(I0) - I0) if self.sort == "int" else None
+        if e is not None and z3.is_int_value(e):
+            return concrete(SymInt(z3.simplify(iterm(self.n) - 1 + e)))
+        c = sym.Ctx.current
+        if self.sort == "bool":
+            raise EngineLimit("max of a boolean SymArray")
+        m = c.int("max") if self.sort == "int" else c.real("max")
+        w = c.int("argmax")
+        f = self._elem
+        ii = z3.Int("__i")
+        c.assume(SymBool(z3.And(w.t >= 0, w.t < iterm(self.n), f(w.t) == m.t)))
+        ax = z3.ForAll([ii], z3.Implies(z3.And(ii >= 0, ii < iterm(self.n)), f(ii) <= m.t))
+        c.pc.append(ax)
+        c.solver.add(ax)
+        return m
+
     def any(self):
         raise EngineLimit("any() over a symbolic-length array")
 
@@ -374,6 +405,36 @@ class SymArray:
 
     def sum(self, *a, **k):
         raise EngineLimit("sum() over a symbolic-length array")
+
+
+_SCATTER = {}
+
+
+def scatter_functions(key: "SymArray"):
+    """For an index array R of length q with pairwise distinct entries (requires of the caller), returns
+    (H, I): H(r) <=> r is one of the indices, I(r) = the position k with R[k] = r.  The defining axioms
+    are added to the current path condition (quantified, instantiated by E-matching on R(k) / H(r))."""
+    c = sym.Ctx.current
+    kk = ("scatter",) + key.key()
+    reg = c.__dict__.setdefault("_scatter", {})
+    if kk in reg:
+        return reg[kk]
+    n = len(reg)
+    H = z3.Function(c.fresh_name(f"hit{n}"), z3.IntSort(), z3.BoolSort())
+    I = z3.Function(c.fresh_name(f"pos{n}"), z3.IntSort(), z3.IntSort())
+    R = key._elem
+    q = iterm(key.n)
+    r, k = z3.Int("__r"), z3.Int("__k")
+    ax1 = z3.ForAll([r], z3.Implies(H(r), z3.And(I(r) >= 0, I(r) < q, R(I(r)) == r)), patterns=[H(r)])
+    ax2 = z3.ForAll([k], z3.Implies(z3.And(k >= 0, k < q), z3.And(H(R(k)), I(R(k)) == k)), patterns=[R(k)])
+    c.pc.append(ax1)
+    c.pc.append(ax2)
+    c.solver.add(ax1, ax2)
+    from .shims import _used
+
+    _used("numpy scatter a[R] = v with pairwise distinct R: a[R[k]] = v[k] for every k, other entries unchanged")
+    reg[kk] = (H, I)
+    return reg[kk]
 
 
 def _is_operand(o):
@@ -818,6 +879,41 @@ def _m_ones(shape, dtype=float, order="C", **k):
     raise EngineLimit("np.ones with a symbolic n-d shape")
 
 
+def _m_full(shape, fill_value, dtype=None, **k):
+    from .shims import _used
+
+    _used("np.zeros/ones/full(n): constant array of length n")
+    if isinstance(shape, tuple) and len(shape) == 1:
+        shape = shape[0]
+    if isinstance(shape, (SymInt, int, np.integer)):
+        srt = "real" if isinstance(fill_value, (SymReal, float, np.floating)) else ("int" if isinstance(fill_value, (SymInt, int, np.integer)) else "real")
+        return SymArray.const(shape, fill_value, srt)
+    raise EngineLimit("np.full with a symbolic n-d shape")
+
+
+def _m_arange(*a, **k):
+    from .shims import _used
+
+    _used("np.arange(n): the array 0..n-1; np.arange(a, b): a..b-1")
+    if len(a) == 1:
+        lo, hi = 0, a[0]
+    elif len(a) == 2:
+        lo, hi = a
+    else:
+        raise EngineLimit("np.arange with a step")
+    lot = iterm(lo)
+    return SymArray(hi - lo, lambda i: i + lot, "int")
+
+
+def _m_argsort(a, *args, **k):
+    from .shims import _used
+
+    _used("np.argsort(a): abstract index array of the same length (only its length is used symbolically)")
+    if isinstance(a, SymArray):
+        return SymArray.fresh("argsort", a.n, "int")
+    raise EngineLimit("argsort")
+
+
 def _m_ones_like(a, dtype=None, **k):
     if isinstance(a, SymArray):
         srt = a.sort if dtype is None else ("real" if dtype in (float, np.float64) else a.sort)
@@ -955,6 +1051,7 @@ def FUNCTION_MODELS():
         np.where: _m_where,
         np.concatenate: _m_concatenate,
         np.copy: lambda a, *x, **k: a.copy(),
+        np.argsort: _m_argsort,
         np.ndim: lambda a: a.ndim,
         np.shape: lambda a: a.shape,
     }
@@ -969,6 +1066,8 @@ def CONSTRUCTOR_MODELS():
         (sps, "csc_matrix", _m_csc_matrix),
         (sps, "bmat", _m_bmat),
         (np, "zeros", _m_zeros),
+        (np, "full", _m_full),
+        (np, "arange", _m_arange),
         (np, "ones", _m_ones),
         (np, "array", _m_array),
         (np, "asarray", _m_asarray),
